@@ -35,6 +35,17 @@ Definition cmp_row (f : (Qc -> Qc -> bool) -> row -> row) (w : nat) (rw : row * 
   if (ocells_eqb m (cells w (f sel_hi (fst rw))) && ocells_eqb m (cells w (f sel_lo (fst rw))))%bool
   then (if ocells_eqb m (snd rw) then 0 else 1)%Z else 16%Z.
 
+(* the same with the tie rule of the sum nodes and the tie rule of the leaves varied SEPARATELY: with one rule for both, two
+   near-ties on one path (a sum node and the leaf mode below it) can cancel and hide each other *)
+Definition qmpe2 (ssel lsel : Qc -> Qc -> bool) (t : qtable) (r : row) : row :=
+  mpe_row Qc 0%Qc 1%Qc Qcplus Qcmult ssel qleaf qleaf_val (qfill lsel) t r.
+Definition cmp_row2 (f : (Qc -> Qc -> bool) -> (Qc -> Qc -> bool) -> row -> row) (w : nat) (rw : row * list (option Z)) : Z :=
+  let m := cells w (f sel_first sel_first (fst rw)) in
+  if (ocells_eqb m (cells w (f sel_hi sel_hi (fst rw))) && ocells_eqb m (cells w (f sel_lo sel_lo (fst rw))) &&
+      ocells_eqb m (cells w (f sel_hi sel_first (fst rw))) && ocells_eqb m (cells w (f sel_lo sel_first (fst rw))) &&
+      ocells_eqb m (cells w (f sel_first sel_hi (fst rw))) && ocells_eqb m (cells w (f sel_first sel_lo (fst rw))))%bool
+  then (if ocells_eqb m (snd rw) then 0 else 1)%Z else 16%Z.
+
 Record pcase := { pc_t : qtable; pc_w : nat; pc_rows : list (row * list (option Z)) }.
 (* rows whose evidence has probability zero are outside the positivity clause and every branch
    comparison on them can be an exact 0 = 0 tie (the code then prefers a floored -1e31 to -inf): 32 *)
@@ -43,7 +54,7 @@ Record pcase := { pc_t : qtable; pc_w : nat; pc_rows : list (row * list (option 
 Definition run_pcase (c : pcase) : list Z :=
   map (fun rw => if Qc_eq_bool (qroot (pc_t c) (fst rw)) 0%Qc then 32%Z
                  else if Qc_eq_bool (qroot (pc_t c) (mkrow (snd rw))) 0%Qc then 2%Z
-                 else cmp_row (fun s => qmpe s (pc_t c)) (pc_w c) rw) (pc_rows c).
+                 else cmp_row2 (fun s l => qmpe2 s l (pc_t c)) (pc_w c) rw) (pc_rows c).
 
 Record tcase := { tc_c : clt Qc; tc_w : nat; tc_rows : list (row * list (option Z)) }.
 Definition run_tcase (c : tcase) : list Z := map (cmp_row (fun s => qclt_mpe s (tc_c c)) (tc_w c)) (tc_rows c).
